@@ -121,3 +121,111 @@ Proof.
   rewrite A, B. split; reflexivity.
 Qed.
 Print Assumptions C03_intra_fact_rs.
+
+(* ------------------------------------------------------------------ *)
+(* C03 end to end on the real codecs (Proofs/C03Inst.v, Proofs/PipelineClean.v).  The per-block clauses of
+   `entry_level_facts` are theorems of the Pipeline model (C04/C10): every block `-g` generated passes the flag test,
+   so hdr_file is Clean / writes nothing and sa_file's first pass detects nothing, for ANY decoder (never called).
+   With the intra-ecc clause (C09) and the size clause also discharged, the hypotheses left are those the property
+   itself names or the format needs: unambiguous text, NUL-free names, files unchanged under the root given at check
+   time (`look`), sizes < 10^4300, and for the whole-file tool the metadata fitting its 65535-byte read window. *)
+From PFF Require Proofs.C03Inst.
+
+Theorem C03_clean_header_rs :
+  forall (algo : N) (mb : nat) hash hlen, (forall m, length (hash m) = hlen) ->
+  forall bdec o fast ik ies, 1 <= ik -> ik + ies <= 255 -> forall idec ms hdr, 1 <= ms <= mb -> 1 <= hlen + (mb - ms) ->
+  let intra := C03Inst.intra_h algo ik ies idec in
+  let fenc := C03Inst.fenc_h algo ik ies in
+  let track := C03Inst.track_h algo mb hash ms hdr in
+  let blocks := C03Inst.blocksH_pipe algo mb hash hlen bdec o fast ms hdr in
+  forall marker delim ignore_size look preamble (T : list (list byte * list byte)),
+  marker <> [] ->
+  clean_pieces marker (preamble :: map (gen_entry delim fenc track) T) ->
+  (forall f, In f T ->
+     prefixb delim (fst f ++ delim) = false /\ clean_mid delim (fst f) /\ clean_mid delim (size_of f) /\
+     clean_mid delim (fenc (fst f)) /\ clean_mid delim (fenc (size_of f))) ->
+  (forall f, In f T -> (N.of_nat (length (snd f)) < 10 ^ 4300)%N) ->
+  (forall f, In f T -> has_nul (fst f) = false) ->
+  (forall f, In f T -> look (fst f) = Some (snd f)) ->
+  run_h marker delim ignore_size look intra blocks (generate marker delim fenc track preamble T)
+  = Done (mkC (length T) 0 0 0 0) [] 0.
+Proof.
+  intros algo mb hash hlen HL bdec o fast ik ies K1 K2 idec ms hdr MS TP.
+  exact (C03Inst.clean_header algo mb hash hlen HL bdec o fast ik ies K1 K2 idec ms hdr MS TP).
+Qed.
+Print Assumptions C03_clean_header_rs.
+
+Theorem C03_clean_whole_rs :
+  forall (algo : N) (mb : nat) hash hlen, (forall m, length (hash m) = hlen) ->
+  forall bdec o fast ik ies, 1 <= ik -> ik + ies <= 255 -> forall idec mu,
+  (forall c, 1 <= mu c <= mb) -> (forall c, 1 <= hlen + (mb - mu c)) -> forall window,
+  let intra := C03Inst.intra_w algo ik ies idec in
+  let fenc := C03Inst.fenc_w algo ik ies in
+  let track := C03Inst.track_w algo mb hash mu in
+  let blocks := C03Inst.blocksW_pipe algo mb hash hlen bdec o fast mu in
+  forall marker delim ignore_size look preamble (T : list (list byte * list byte)),
+  marker <> [] ->
+  clean_pieces marker (preamble :: map (gen_entry delim fenc track) T) ->
+  (forall f, In f T ->
+     prefixb delim (fst f ++ delim) = false /\ clean_mid delim (fst f) /\ clean_mid delim (size_of f) /\
+     clean_mid delim (fenc (fst f)) /\ clean_mid delim (fenc (size_of f))) ->
+  (forall f, In f T -> (N.of_nat (length (snd f)) < 10 ^ 4300)%N) ->
+  (forall f, In f T -> has_nul (fst f) = false) ->
+  (forall f, In f T -> look (fst f) = Some (snd f)) ->
+  (forall f, In f T -> meta_len delim (fst f) (size_of f) (fenc (fst f)) (fenc (size_of f)) <= window) ->
+  run_w marker delim ignore_size look intra window blocks (generate marker delim fenc track preamble T)
+  = Done (mkC (length T) 0 0 0 0) [] 0.
+Proof.
+  intros algo mb hash hlen HL bdec o fast ik ies K1 K2 idec mu MU TP window.
+  exact (C03Inst.clean_whole algo mb hash hlen HL bdec o fast ik ies K1 K2 idec mu MU TP window).
+Qed.
+Print Assumptions C03_clean_whole_rs.
+
+(* Non-vacuity: a concrete two-file tree (codec 3, blocks of 10 + 10 parity, header 15, a toy 4-byte hash, the real
+   entry marker and field delimiter; a 200-byte metadata window for the whole-file tool) meets every hypothesis of both theorems; the conclusion is obtained from the
+   theorems, not by running the model. *)
+Definition ex_marker : list byte := [xfe; xff; xfe; xff; xfe; xff; xfe; xff; xfe; xff].
+Definition ex_hash (m : list byte) : list byte := firstn 4 (m ++ repeat x00 4).
+Definition ex_tree : list (list byte * list byte) :=
+  [([x61; x2f; x62], [x68; x65; x6c; x6c; x6f; x20; x77; x6f; x72; x6c; x64; x21; x0a; x00; xff; x31; x32]);
+   ([x7a], [x01; x02; x03])].
+Definition ex_look (p : list byte) : option (list byte) :=
+  match List.find (fun f => if list_eq_dec Byte.byte_eq_dec (fst f) p then true else false) ex_tree with
+  | Some f => Some (snd f) | None => None end.
+Lemma ex_hash_len m : length (ex_hash m) = 4.
+Proof. unfold ex_hash. rewrite firstn_length, app_length, repeat_length. apply Nat.min_l. apply Nat.le_add_l. Qed.
+
+Example C03_clean_header_nonvacuous :
+  run_h ex_marker fd false ex_look (C03Inst.intra_h 3 9 18 (fun _ _ => None))
+        (C03Inst.blocksH_pipe 3 20 ex_hash 4 (fun _ _ _ _ => None) None false 10 15)
+        (generate ex_marker fd (C03Inst.fenc_h 3 9 18) (C03Inst.track_h 3 20 ex_hash 10 15) [x2a; x2a] ex_tree)
+  = Done (mkC 2 0 0 0 0) [] 0.
+Proof.
+  apply (C03_clean_header_rs 3 20 ex_hash 4 ex_hash_len (fun _ _ _ _ => None) None false 9 18 ltac:(repeat constructor) ltac:(vm_compute; repeat constructor)
+           (fun _ _ => None) 10 15 ltac:(split; repeat constructor) ltac:(vm_compute; repeat constructor) ex_marker fd false ex_look [x2a; x2a] ex_tree).
+  - discriminate.
+  - vm_compute. repeat split.
+  - intros f Hf. repeat (destruct Hf as [<-|Hf]; [vm_compute; repeat split|]). destruct Hf.
+  - intros f Hf. repeat (destruct Hf as [<-|Hf]; [reflexivity|]). destruct Hf.
+  - intros f Hf. repeat (destruct Hf as [<-|Hf]; [reflexivity|]). destruct Hf.
+  - intros f Hf. repeat (destruct Hf as [<-|Hf]; [vm_compute; reflexivity|]). destruct Hf.
+Qed.
+
+Example C03_clean_whole_nonvacuous :
+  run_w ex_marker fd false ex_look (C03Inst.intra_w 3 9 18 (fun _ _ => None)) 200
+        (C03Inst.blocksW_pipe 3 20 ex_hash 4 (fun _ _ _ _ => None) None false (fun c => if c <? 10 then 5 else 10))
+        (generate ex_marker fd (C03Inst.fenc_w 3 9 18) (C03Inst.track_w 3 20 ex_hash (fun c => if c <? 10 then 5 else 10)) [x2a; x2a] ex_tree)
+  = Done (mkC 2 0 0 0 0) [] 0.
+Proof.
+  apply (C03_clean_whole_rs 3 20 ex_hash 4 ex_hash_len (fun _ _ _ _ => None) None false 9 18 ltac:(repeat constructor) ltac:(vm_compute; repeat constructor)
+           (fun _ _ => None) (fun c => if c <? 10 then 5 else 10)).
+  - intros c. destruct (c <? 10); split; repeat constructor.
+  - intros c. destruct (c <? 10); vm_compute; repeat constructor.
+  - discriminate.
+  - vm_compute. repeat split.
+  - intros f Hf. repeat (destruct Hf as [<-|Hf]; [vm_compute; repeat split|]). destruct Hf.
+  - intros f Hf. repeat (destruct Hf as [<-|Hf]; [reflexivity|]). destruct Hf.
+  - intros f Hf. repeat (destruct Hf as [<-|Hf]; [reflexivity|]). destruct Hf.
+  - intros f Hf. repeat (destruct Hf as [<-|Hf]; [vm_compute; reflexivity|]). destruct Hf.
+  - intros f Hf. repeat (destruct Hf as [<-|Hf]; [apply Nat.leb_le; vm_compute; reflexivity|]). destruct Hf.
+Qed.
